@@ -25,7 +25,12 @@ def swept_param(proc: str) -> str:
     return "factor" if "Multiply" in proc else "value"
 
 
-def scalar(v: int, sp: int) -> str:
+STR_SPELL = ["k{}", '"k{}"', "'k{}'", "k{}"]
+
+
+def scalar(v: int, sp: int, is_str: bool = False) -> str:
+    if is_str:
+        return STR_SPELL[sp].format(int(v))       # a string value: plain / double-quoted / single-quoted
     return SPELL[sp].format(float(v))
 
 
@@ -37,7 +42,7 @@ def meaning_node(n) -> Dict[str, Any]:
         if en["sub"]:
             params[en["k"]] = {s["k"]: float(s["v"]) for s in en["sub"]}
         else:
-            params[en["k"]] = float(en["v"])
+            params[en["k"]] = f"k{int(en['v'])}" if en.get("str") else float(en["v"])
     if params:
         out["parameters"] = params
     sw = n["sweep"]
@@ -72,7 +77,7 @@ def render(cfg: List[Dict[str, Any]]) -> str:
                 if en["sub"]:
                     pre = f"&n{idx}e{ei} " if ei in anchored else ""
                     return en["k"], pre + "{" + ", ".join(f"{s['k']}: {scalar(s['v'], s['sp'])}" for s in en["sub"]) + "}", en["sub"]
-                return en["k"], scalar(en["v"], en["sp"]), None
+                return en["k"], scalar(en["v"], en["sp"], en.get("str")), None
             if n["flow"]:
                 body.append("      parameters: {" + ", ".join(f"{k}: {v}" for k, v, _ in (ent(en, ei) for ei, en in enumerate(n["ps"], 1))) + "}")
             else:
@@ -85,7 +90,7 @@ def render(cfg: List[Dict[str, Any]]) -> str:
                         for s in en["sub"]:
                             body.append(f"          {s['k']}: {scalar(s['v'], s['sp'])}")
                     else:
-                        body.append(f"        {en['k']}: {scalar(en['v'], en['sp'])}")
+                        body.append(f"        {en['k']}: {scalar(en['v'], en['sp'], en.get('str'))}")
         sw = n["sweep"]
         if sw["on"]:
             vals = ", ".join((str(int(x)) if sw.get("ints") else f"{float(x):.1f}") for x in sw["vals"])
